@@ -77,7 +77,8 @@ def main():
                        os.path.join(VERIF, "checks", args.prop.lower() + ".py"),
                        "--tier", args.tier]
                 if args.runs:
-                    cmd += ["--runs", str(args.runs)]
+                    cmd += ["--batches" if args.prop == "C30" else "--runs",
+                            str(args.runs)]
                 p = subprocess.run(cmd, env=env, capture_output=True,
                                    text=True, cwd=VERIF)
                 v = [l for l in p.stdout.splitlines()
